@@ -17,7 +17,7 @@ PROPS = {
     "C09": dict(engine="machine", level="exploration"),
     "C10": dict(engine="persist", level="fault_enumeration"),
     "C11": dict(engine="persist", level="exploration"),
-    "C13": dict(engine="link", level="fault_enumeration"),
+    "C13": dict(engine="link", level="fault_enumeration", race=True),
     "C14": dict(engine="link", level="exploration"),
     "C16": dict(engine="link", level="fault_enumeration"),
     "C03": dict(engine="world", level="exploration", inject=LOCKPKGS),
